@@ -111,7 +111,7 @@ def make_case(rng, i, tier):
 
 def run(ctx):
     rng, tier = ctx["rng"], ctx["tier"]
-    n = 150 if tier == "quick" else 4000
+    n = int((150 if tier == "quick" else 4000) * ctx.get("mult", 1))
     hashseeds = [0, 1, 2] if tier == "quick" else list(range(6))
     if ctx.get("replay"):
         cases = [f["case"] for f in ctx["replay"]["failing"] if "case" in f]
